@@ -39,7 +39,15 @@ def run(ctx, res):
     cases += scenarios.corpus_cases(ID)
     cases += scenarios.directed_cases(ctx, "c07s", nd - len(cases), scenarios.sleep_history, scenarios.SLEEP_VERSIONS)
     cases += gwcheck.gen_cases(ctx, "c07g", n - nd, length=(20, 60), versions=scenarios.SLEEP_VERSIONS)
-    recs = gwcheck.run_cases(ctx, res, cases, ["c07"], SCOPE, "c07")
+    # a third of the histories: persistence and a clean stop + start in the middle (pickle stores more than json)
+    import shutil
+    from harness.gen import scenarios_a
+    scenarios.with_restarts(ctx, cases, "c07")
+    root = scenarios_a.assign_persist(cases, "c07", lambda i, c: c.pop("_fmt", None))
+    try:
+        recs = gwcheck.run_cases(ctx, res, cases, ["c07"], SCOPE, "c07")
+    finally:
+        shutil.rmtree(root, ignore_errors=True)
     reach = {"withheld": 0, "burst": 0, "stream_to_sleeper": 0, "ends_with_sleeper": 0, "awake_while_sleep": 0}
     for r in recs:
         st = r["stats"]
@@ -58,4 +66,13 @@ def run(ctx, res):
 
 
 def replay(ctx, case):
+    c0 = case["case"] if "case" in case else case
+    if c0["cfg"].get("persist"):
+        import shutil
+        from harness.gen import scenarios_a
+        c, root = scenarios_a.relocated(c0, "c07")
+        try:
+            return gwcheck.replay_case(ctx, c)
+        finally:
+            shutil.rmtree(root, ignore_errors=True)
     return gwcheck.replay_case(ctx, case)
